@@ -65,8 +65,7 @@ Definition gout_ok (want : option res) (g : gout) : bool :=
   end.
 
 Definition block_spec_ok (b : lblock) : bool :=
-  known_unwrapped (l_plat b) (l_meth b)
-  || forallb2 (fun c g => gout_ok (demanded (l_plat b) (l_meth b) (l_site b) c) g) (conds (l_plat b)) (l_outs b).
+  forallb2 (fun c g => gout_ok (demanded (l_plat b) (l_meth b) (l_site b) c) g) (conds (l_plat b)) (l_outs b).
 
 Definition block_model_ok (b : lblock) : bool :=
   forallb2 (fun c g => gout_ok (Some (method_outcome (l_plat b) (l_meth b) (l_site b) c)) g) (conds (l_plat b)) (l_outs b).
@@ -146,9 +145,9 @@ Definition deps_ok (u : urow) : bool :=
 Definition row_ok (u : urow) : bool :=
   match doc_layout (u_plat u) (u_meth u) (u_variant u) with
   | None => true
-  | Some d => fields_ok u d && (type_ok u d || known_gids_type (u_plat u) (u_meth u))
+  | Some d => fields_ok u d && type_ok u d
   end
-  && (deps_ok u || known_terminal (u_plat u) (u_meth u)).
+  && deps_ok u.
 
 Fixpoint find_urow (p : plat) (meth variant : string) (l : list urow) : option urow :=
   match l with
